@@ -225,8 +225,34 @@ def isolation_case(rp):
         w.close()
 
 
+def url_context_case(rp):
+    """pilot-level staging hands complete_url a context whose entries are Url objects
+    (Session._get_*_sandbox): resolving one directive must not influence the next"""
+    import radical.utils as ru
+    from radical.pilot.staging_directives import complete_url
+    for as_url in (False, True):
+        mk = (lambda x: ru.Url(x)) if as_url else (lambda x: x)
+        ctx = {k: mk('file://localhost/base/%s' % k) for k in ('pwd', 'client', 'pilot', 'session', 'resource', 'endpoint', 'task')}
+        before = {k: str(v) for k, v in ctx.items()}
+        for path in ('pilot:///a.dat', 'pilot:///b.dat', 'session:///s/x', 'rel.dat', 'client:///c.dat', 'resource:///r.dat', 'pilot:///a.dat'):
+            got = str(complete_url(path, ctx))
+            schema, rel = (path.split(':///', 1) + [None])[:2] if ':///' in path else ('pwd', path)
+            want = 'file://localhost/base/%s/%s' % (schema, rel)
+            if got.replace('//%s' % rel, '/%s' % rel) != want:
+                return 'complete_url(%r) with %s context entries gives %s, expected %s (earlier directives were resolved with the same context)' % (
+                    path, 'Url' if as_url else 'string', got, want)
+            after = {k: str(v) for k, v in ctx.items()}
+            if after != before:
+                ch = sorted(k for k in before if before[k] != after[k])
+                return 'complete_url(%r) changed the context entries %s: %s' % (path, ch, [after[k] for k in ch])
+    return None
+
+
 def run_all(rp, tier='quick'):
     viol, n = [], 0
+    n += 1
+    p = url_context_case(rp)
+    if p: viol.append(dict(id='url-context', detail=p, input={}))
     for case in input_cases():
         n += 1
         p = run_input_case(rp, case)
@@ -240,7 +266,7 @@ def run_all(rp, tier='quick'):
     if p: viol.append(dict(id='isolation', detail=p, input={}))
     return dict(cases=n, violations=viol,
                 bound='%d scenarios: 5 actions x 4 target forms (dict form) + 6 string short forms on the input side, '
-                      '5 action/target forms x 3 task outcomes on the output side, one failure-isolation scenario; '
+                      '5 action/target forms x 3 task outcomes on the output side, one failure-isolation scenario, one sequence of directives resolved against one context (string and Url entries); '
                       'local staging backend on a temporary file tree (no remote endpoint)' % n)
 
 
